@@ -92,8 +92,8 @@ func EndBlocker(ctx sdk.Context, k keeper.Keeper) {
 	// clear ballots
 	k.ClearBallots(ctx)
 
-	// if we are at the last block of slash window, slash validators and reset miss count
-	if types.IsLastBlockOfSlashWindow(ctx, params.SlashWindow) {
+	// if a slash window ended since the previous tally, slash validators and reset miss count
+	if types.IsSlashWindowClosing(ctx.BlockHeight(), params.VotePeriod, params.SlashWindow) {
 		k.SlashValidatorsAndResetMissCount(ctx)
 	}
 }
